@@ -275,6 +275,7 @@ let run_lsp (x : Sexp.t) : string =
   | _ -> failwith "lsp"
 
 let run mode (line : string) : string =
+  if mode = "pos" then Drv_pos.run line else
   let x = parse line in
   match mode with
   | "climb" ->
@@ -329,6 +330,7 @@ let run mode (line : string) : string =
      | _ -> failwith "lex")
   | "batch" -> run_batch x
   | "lsp" -> run_lsp x
+  | "pos" -> Drv_pos.run line
   | "print_pp" -> Drv_print.run "pp" line
   | "print_cmap" -> Drv_print.run "cmap" line
   | "print_sched" -> Drv_print.run "sched" line
